@@ -174,7 +174,15 @@ impl Project for FileBackedProject {
 
         // Do the analysis
         match analyze(&all_libraries) {
-            Ok(_) => Ok(()),
+            Ok(_) => {
+                // The files that parsed are fine, but a file that did not parse
+                // is still an error for the set
+                if all_diagnostics.is_empty() {
+                    Ok(())
+                } else {
+                    Err(all_diagnostics)
+                }
+            }
             Err(diagnostics) => {
                 // If we had an error, then add more diagnostics to any that we already had
                 all_diagnostics.extend(diagnostics);
